@@ -171,7 +171,18 @@ def run(ctx):  # noqa: C901, PLR0912, PLR0915
             for n in ast.walk(lp):
                 if isinstance(n, ast.Call) and call_name(n) in ('get_one', 'get') and _lookup_name(n):
                     lookups.append(n)
-            lookups.sort(key=lambda c: (c.lineno, c.col_offset))
+            # order of evaluation in the (normalised) function: position of the holding statement in the tree walk - line
+            # numbers are not usable once a helper was expanded in place
+            pos = {id(x): i for i, x in enumerate(ast.walk(lp))}
+            dfs = {}
+
+            def _number(node, counter=[0]):  # noqa: B006
+                dfs[id(node)] = counter[0]
+                counter[0] += 1
+                for ch in ast.iter_child_nodes(node):
+                    _number(ch, counter)
+            _number(lp, [0])
+            lookups.sort(key=lambda c: dfs.get(id(c), pos.get(id(c), 0)))
             order = [_lookup_name(c) for c in lookups]
             for c in lookups:
                 dep = any(depends_on(a, assigns, hv) for a in c.args)
